@@ -6,3 +6,5 @@ pub mod bus;
 pub mod step;
 #[cfg(kani)]
 mod harness;
+#[cfg(kani)]
+mod spec_lemmas;
